@@ -131,13 +131,13 @@ func runSystem(o checks.Opts) *report.Report {
 	rep.Rule = "for a subset of the generated packages: real Package -> ObjectDeployment -> ObjectSet controllers unpack the package, then the same spec is force-re-rendered (packageHashModifier) under every map order at one executed range site; the deployment's template must stay identical and no ObjectSet may be created; what was deployed (template with its ObjectSlices resolved, incl. packages whose phase exceeds the 1 MiB chunk limit) must hold every object of the reference render exactly once"
 	var pk []Pkg
 	for i, p := range packages(true) {
-		if (len(p.Atoms) >= 3 && i%7 == 0) || strings.Contains(p.Atoms, "G") {
+		if (len(p.Atoms) >= 3 && i%7 == 0) || strings.Contains(p.Atoms, "G") || strings.Contains(p.Atoms, "W") {
 			pk = append(pk, p)
 		}
 	}
 	// the packages with an oversized phase first (the quick tier keeps a prefix)
 	sort.SliceStable(pk, func(i, j int) bool {
-		return strings.Contains(pk[i].Atoms, "G") && !strings.Contains(pk[j].Atoms, "G")
+		return strings.ContainsAny(pk[i].Atoms, "GW") && !strings.ContainsAny(pk[j].Atoms, "GW")
 	})
 	if o.Quick() && len(pk) > 48 {
 		pk = pk[:48]
